@@ -39,6 +39,10 @@ Fixpoint msgs_of (c : chunk) : list msg :=
   | None :: r => msgs_of r
   end.
 
+(** Class 13 stands for packet-type messages that have no scapy counterpart
+    ([to_packet()] returns None, e.g. a BLE advertisement of type ADV_UNKNOWN). *)
+Definition m_conv (m : msg) : bool := negb (m_cls m =? 13).
+
 (** message_filter: a filter is identified by the class it keeps. *)
 Definition matches (f : N) (m : msg) : bool := m_cls m =? f.
 
@@ -102,7 +106,8 @@ Inductive apc :=
 (* Connector.unlock *)
 | A_U1            (* acquire __lock *)
 | A_U2            (* locked_q.empty() *)
-| A_U3            (* locked_q.get(); dispatch *)
+| A_U3            (* locked_q.get() *)
+| A_U4 (m : msg)  (* dispatch (callback / packet dispatch routine) *)
 | A_U5            (* release __lock *)
 | A_U6            (* store __locked := False *)
 (* enable_synchronous *)
@@ -137,7 +142,8 @@ Inductive cpc :=
 | CC_T (m : msg)             (* repaired add_locked_pdu: load __locked under the lock *)
 | CC_Put (m : msg)           (* locked_q.put *)
 | CC_Rel                     (* release __lock *)
-| CC_RelD (m : msg).         (* repaired: release __lock, then dispatch directly *)
+| CC_RelD (m : msg)          (* repaired: release __lock, then dispatch directly *)
+| CC_D (m : msg).            (* the packet dispatch routine (__process_pkt_message -> on_packet) *)
 
 (** ---- state ----------------------------------------------------------------------------- *)
 
@@ -310,15 +316,15 @@ Definition step_C (cfg : config) (s : state) : state :=
   | CC_SPut m => set_c_pc CC_Get (set_sync_q (sync_q s ++ [m]) s)
   | CC_L1 m => set_c_pc (CC_L2 m) s
   | CC_L2 m =>
-      if locked s then set_c_pc (CC_A m) s
-      else set_c_pc CC_Get (set_dispatched (dispatched s ++ [m]) s)
+      if locked s then set_c_pc (CC_A m) s else set_c_pc (CC_D m) s
   | CC_A m =>
       if lk s then s
       else set_c_pc (if legacy_unlock cfg then CC_Put m else CC_T m) (set_lk true s)
   | CC_T m => if locked s then set_c_pc (CC_Put m) s else set_c_pc (CC_RelD m) s
   | CC_Put m => set_c_pc CC_Rel (set_locked_q (locked_q s ++ [m]) s)
   | CC_Rel => set_c_pc CC_Get (set_lk false s)
-  | CC_RelD m => set_c_pc CC_Get (set_lk false (set_dispatched (dispatched s ++ [m]) s))
+  | CC_RelD m => set_c_pc (CC_D m) (set_lk false s)
+  | CC_D m => set_c_pc CC_Get (set_dispatched (dispatched s ++ [m]) s)
   end.
 
 (** ---- application thread ------------------------------------------------------------------------- *)
@@ -421,9 +427,10 @@ Definition step_A (cfg : config) (s : state) : state :=
       end
   | A_U3 =>
       match locked_q s with
-      | m :: q => set_a_pc A_U2 (set_locked_q q (set_dispatched (dispatched s ++ [m]) s))
+      | m :: q => set_a_pc (A_U4 m) (set_locked_q q s)
       | [] => s
       end
+  | A_U4 m => set_a_pc A_U2 (set_dispatched (dispatched s ++ [m]) s)
   | A_U5 =>
       if legacy_unlock cfg then set_a_pc A_U6 (set_lk false s)
       else a_finish cfg (set_lk false s)
@@ -446,7 +453,7 @@ Definition step_A (cfg : config) (s : state) : state :=
       match sync_q s with
       | m :: q =>
           a_finish cfg (set_sync_q q
-            (set_retrieved (retrieved s ++ [if m_pkt m then Some m else None]) s))
+            (set_retrieved (retrieved s ++ [if m_pkt m && m_conv m then Some m else None]) s))
       | [] =>
           match cur_wait s with
           | None => s
